@@ -189,7 +189,7 @@ theorem filterAux_leaf_error (l : Leaf PyVal) (d : DataV) (e : Exc)
     split at he' <;> cases he'
     rfl
   · rename_i info hinfo
-    simp only [Bool.false_eq_true, if_false] at h
+    simp only [Bool.false_and, Bool.false_eq_true, if_false] at h
     split at h
     · rename_i e' he'
       cases h
@@ -205,7 +205,7 @@ theorem filterAux_leaf_ok (l : Leaf PyVal) (d : DataV) (fd : FD) (d' : DataV) (p
   split at h
   · cases h
   · rename_i info hinfo
-    simp only [Bool.false_eq_true, if_false] at h
+    simp only [Bool.false_and, Bool.false_eq_true, if_false] at h
     split at h
     · cases h
     · rename_i flags hflags
